@@ -172,6 +172,20 @@ def run(ctx):
         n_scope += 1
         cases.append(make_case(it["key"], "catalogue", it["value"], f"C18:{it['key']}"))
     ctx.coverage["catalogue_in_scope"] = n_scope
+    # the printer must be a function of the expression: render the catalogue again in reverse order, same process
+    n_order = 0
+    for c in reversed([c for c in cases if c["origin"] == "catalogue" and c["s"] is not None]):
+        try:
+            again = latex_str(c["expr"])
+        except Exception as e:  # pylint: disable=broad-except
+            again = f"<raises {type(e).__name__}>"
+        n_order += 1
+        if again != c["s"]:
+            ctx.violation(f"C18:order:{c['key']}", f"rendering of {c['key']} depends on what was printed before: "
+                f"{c['s']!r} in catalogue order, {again!r} when printed again in reverse order",
+                {"kind": "violation", "item": c["key"], "origin": "catalogue", "rendering": c["s"],
+                 "rendering_second_pass": again, "original": str(c["expr"])}, found_input=True)
+    ctx.coverage["order_independence_rerenders"] = n_order
     ctx.coverage["catalogue_out_of_scope_no_latex_directive"] = out_of_scope
 
     n_samples = ctx.pick(1000, 20000)
@@ -348,24 +362,6 @@ def validate(ctx, cases):
     for c in (cat[:2] + smp[:3] + src[:2]):
         ctx.sample({"item": c["key"], "rendering": c["s"], "original": str(c["expr"]),
             "lemma": (c["lemma"].statement[:600] if c.get("lemma") else c["wf"].statement[:300]), "status": c["status"]})
-
-
-def dev_validate(ctx, cases):
-    sem = [c for c in cases if c["sides"] is not None]
-    rc.parse_pass(ctx, "c18", PARSE_FN, sem, preamble=rc.PREAMBLE_TEX)
-    rc.classify_and_build("C18", sem, PARSE_FN)
-    for c in cases:
-        print("==", c["key"], c.get("status"), c.get("bad"), c.get("reason"))
-        print("   s:", c["s"])
-        print("   e:", c["expr"])
-    lem = [c for c in sem if c["status"] == "lemma"]
-    for c in lem:
-        lm = c["lemma"]
-        with open(f"/tmp/dev/{lm.name}.v", "w", encoding="utf-8") as fh:
-            fh.write(f"{rc.PREAMBLE_TEX}\nLemma {lm.name} : {lm.statement}.\nProof.\n{lm.proof}\nQed.\n")
-    res = coqrun.prove_lemmas(ctx, "c18", rc.PREAMBLE_TEX, [c["lemma"] for c in lem], per_file=1)
-    for c in lem:
-        print(c["key"], "->", res[c["lemma"].name][-700:])
 
 
 def replay(ctx, rep):
